@@ -196,9 +196,23 @@ func c05Variant(p *C05Plan, ref *c05Ref, mode string, k int) error {
 	}
 	// restart
 	before, _ := s.Digest()
-	// abandon every in-memory object: new stack on the same file, without interposer
+	// abandon every in-memory object: new stack on the same file, without interposer. After a kill the new process meets
+	// the files as the dead one left them - nobody closed the database handle: the restart runs on a copy of the files
+	// taken while the old handle is still open (main file plus whatever journal / write-ahead files lie beside it)
+	dbFile := "var.db"
+	if mode == "kill" {
+		dbFile = "crash.db"
+		stack.RemoveDB(filepath.Join(c05Dir, dbFile))
+		for _, suffix := range []string{"", "-wal", "-shm", "-journal"} {
+			if b, err := os.ReadFile(filepath.Join(c05Dir, "var.db"+suffix)); err == nil {
+				if err := os.WriteFile(filepath.Join(c05Dir, dbFile+suffix), b, 0o600); err != nil {
+					return fmt.Errorf("infra: %w", err)
+				}
+			}
+		}
+	}
 	s.Close()
-	s2, err := stack.New(stack.Options{Dir: c05Dir, DBFile: "var.db"})
+	s2, err := stack.New(stack.Options{Dir: c05Dir, DBFile: dbFile})
 	if err != nil {
 		return fmt.Errorf("%s: restart failed: %v", what, err)
 	}
